@@ -246,6 +246,35 @@ class Site:
         self.kind, self.bb, self.what, self.obligations, self.where = kind, bb, what, obligations, where
 
 
+def _slice_iter_source(b, op, depth=0):
+    """[the `x.iter()` call] a chain of length-preserving-or-shortening adaptors (enumerate, rev, skip, take, into_iter, by_ref ...)
+    ends in, or []."""
+    cur = op
+    for _ in range(14):
+        p = op_place(cur) if isinstance(cur, dict) and ("c" in cur or "m" in cur) else (cur if isinstance(cur, dict) and "l" in cur else None)
+        if p is None:
+            return []
+        d = b.single_def(p["l"])
+        if not d:
+            return []
+        if d[2] == "assign" and d[3]["k"] in ("use", "cast"):
+            cur = d[3]["op"]
+        elif d[2] == "assign" and d[3]["k"] in ("ref", "rawptr"):
+            cur = d[3]["place"]
+        elif d[2] == "call" and d[3]["args"]:
+            n = strip_generics(callee_def(d[3]))
+            raw = callee_def(d[3])
+            if re.search(r"slice::.*::iter(_mut)?$", raw) or re.search(r"(^|::)(Vec|slice)(::<[^>]*>)?::iter(_mut)?$", n):
+                return [d[3]]
+            if re.search(r"(IntoIterator::into_iter|Iterator::(enumerate|rev|skip|take|by_ref|peekable|copied|cloned|step_by|fuse|inspect))$", n):
+                cur = d[3]["args"][0]
+            else:
+                return []
+        else:
+            return []
+    return []
+
+
 def sites_and_facts(F, body, extra_facts=None):
     """Returns (sites, facts_at(bb) function)."""
     b = body
@@ -370,6 +399,19 @@ def sites_and_facts(F, body, extra_facts=None):
                 f0 = [x for v, x in t["targets"] if v == 0]
                 if ln is not TOP and f0:
                     facts.append((("edge", bb, f0[0]), aff_add(ln, aff_const(1), -1), "!is_empty()"))
+        # a slice iterator that yields an element walks a non-empty slice: on the Some edge len >= 1
+        if t["k"] == "call" and strip_generics(callee_def(t)).endswith("Iterator::next") and not t["dest"]["p"] and isinstance(t.get("t"), int):
+            srcs = _slice_iter_source(b, t["args"][0])
+            nb2 = t["t"]
+            tt2 = b.term(nb2)
+            if len(srcs) == 1 and tt2["k"] == "switch":
+                dsw = op_place(tt2["d"])
+                dd2 = b.single_def(dsw["l"]) if dsw is not None and not dsw["p"] else None
+                if dd2 and dd2[2] == "assign" and dd2[3]["k"] == "discr" and dd2[3]["place"]["l"] == t["dest"]["l"] and not dd2[3]["place"]["p"]:
+                    some = dict((v, x) for v, x in tt2["targets"]).get(1)
+                    lnx = L.len_sym(srcs[0]["args"][0], bb)
+                    if some is not None and lnx is not TOP:
+                        facts.append((("edge", nb2, some), aff_add(lnx, aff_const(1), -1), "the iterator yielded an element: the slice is not empty"))
         # loop ranges:  opt = next(&mut iter) ; Some(i) => a <= i <= b-1
         if t["k"] == "call" and strip_generics(callee_def(t)).endswith("Iterator::next") and not t["dest"]["p"]:
             o = flow.origin(b, t["args"][0])
